@@ -49,6 +49,7 @@ func resetGlobals(seqStrings bool) {
 	globalIDs = map[*ssa.Global]int64{}
 	funcIDs = map[*ssa.Function]int64{}
 	recSpecDone = map[string]bool{}
+	recDefs = map[string]*recDef{}
 	recPass1 = map[string]bool{}
 	recSpecMem = map[string][][2]string{}
 	bitAxioms = map[int]*Term{}
